@@ -5,6 +5,7 @@ into which the spec modules and any generated constant modules / data files are
 copied; it is removed afterwards unless keep=True.
 """
 import json
+import itertools
 import os
 import re
 import shutil
@@ -108,8 +109,11 @@ def _depth(s):
     return d
 
 
+_serial = itertools.count(1)        # next() is atomic: unique names also when several threads ask at once
+
+
 def workdir(tag):
-    d = os.path.join(WORK, f"{tag}-{os.getpid()}-{int(time.time() * 1000) % 100000000}")
+    d = os.path.join(WORK, f"{tag}-{os.getpid()}-{int(time.time() * 1000) % 100000000}-{next(_serial)}")
     os.makedirs(d, exist_ok=True)
     return d
 
@@ -127,7 +131,7 @@ def run(wd, module, cfg=None, workers=None, timeout=600, simulate=None, depth=No
     """run TLC on <wd>/<module>.tla with <cfg> (file name inside wd)."""
     if workers is None:
         workers = min(16, os.cpu_count() or 1)
-    meta = os.path.join(wd, f"meta-{os.getpid()}-{time.time_ns() % 10**9}")
+    meta = os.path.join(wd, f"meta-{os.getpid()}-{time.time_ns() % 10**9}-{next(_serial)}")
     cmd = ["timeout", "-k", "5", str(int(timeout)),
            "java", f"-Xss{xss}", "-XX:+UseParallelGC"]
     if heap:
